@@ -61,8 +61,13 @@ Inductive case :=
    struct, and WriteMessage of the result *)
 | CTMsg (b : bytes) (ok : bool) (t : N) (fields : list fval) (extra : bytes) (reenc : bytes)
         (pts : list bytes)
+(* the same for a message with an optional tail (Gen.GenWire.gen_optmsgs): fields = fixed
+   ++ tail fields when the tail is present *)
+| COMsg (b : bytes) (ok : bool) (t : N) (fields : list fval) (extra : bytes) (reenc : bytes)
+        (pts : list bytes)
 (* lnwire.DecodeFailure (full) / DecodeFailureMessage on b: ok => failure code and
-   EncodeFailure / EncodeFailureMessage of the result (codes of Gen.GenWire.gen_failures) *)
+   EncodeFailure / EncodeFailureMessage of the result (codes of Gen.GenWire.gen_fdescs:
+   plain payload layouts and payloads embedding a channel_update) *)
 | CFail (full : bool) (b : bytes) (ok : bool) (code : N) (reenc : bytes).
 (* pts: the 33-byte windows of b that are compressed secp256k1 points, computed
    by props/c10.py independently of the Go code (evaluating secp_on_curve below
@@ -169,13 +174,35 @@ Definition check (c : case) : list N :=
        end)
     | None => if ok then [9] else []
     end
+  | COMsg b ok t fields extra reenc pts =>
+    match read_omessage (table_oc pts) gen_optmsgs b with
+    | Some (t', (vs, tvo)) =>
+      (if ok && (t =? t') &&
+          fvals_eqb (vs ++ match tvo with Some (ts, cs, _) => ts ++ cs | None => [] end) fields
+       then [] else [9]) ++
+      (match lookup_om gen_optmsgs t', tvo with
+       | Some W, Some tv =>
+         match dec_rest (table_oc pts) (om_pre W) (skipn 2 b) with
+         | Some (_, r) =>
+           if bytes_eqb (tm_extra (table_oc pts) (om_tail W) r tv) extra then [] else [10]
+         | None => [10]
+         end
+       | Some _, None => if bytes_eqb [] extra then [] else [10]
+       | None, _ => [10]
+       end) ++
+      (match write_omessage gen_optmsgs t' (vs, tvo) with
+       | Some out => if bytes_eqb out reenc then [] else [11]
+       | None => [11]
+       end)
+    | None => if ok then [9] else []
+    end
   | CFail full b ok code reenc =>
-    match (if full then decode_failure secp_on_curve gen_failures b
-           else read_message secp_on_curve gen_failures b) with
-    | Some (c, vs) =>
+    match (if full then decode_failure_g secp_on_curve gen_upd gen_fdescs b
+           else read_fmessage secp_on_curve gen_upd gen_fdescs b) with
+    | Some (c, v) =>
       (if ok && (c =? code) then [] else [12]) ++
-      (match (if full then encode_failure gen_failures c vs
-              else write_message gen_failures c vs) with
+      (match (if full then encode_failure_g gen_upd gen_fdescs c v
+              else write_fmessage gen_upd gen_fdescs c v) with
        | Some out => if bytes_eqb out reenc then [] else [13]
        | None => [13]
        end)
